@@ -716,6 +716,14 @@ ProgSpace ==
                                                IN nm \in {"1"} \/ \E q \in 1..Len(ps) : ps[q] = nm},
                  s \in SeqsUpTo({"~)", "~,", "1", "~(", "G", "NL"}, 3)} :
               ps \in {<<"__VA_ARGS__">>, <<"x", "__VA_ARGS__">>, <<>>, <<"x", "y">>}}
+    [] Space = "q5s" ->  \* an invocation opened inside a replacement list and completed behind it (macrodepth gets shallower
+                         \* during argument collection), arguments that expand to parentheses and commas
+       {<<Def("Q", FALSE, <<>>, q), Def("B", FALSE, <<>>, b), Def("g", TRUE, ps, IF Len(ps) = 1 THEN <<"[", "a", "]">> ELSE <<"[", "a", "b", "]">>)>>
+          \o Text(<<"Q">> \o s) :
+          q \in {<<"g", "(">>, <<"g", "(", "B">>, <<"g", "(", "2", ",">>},
+          b \in SeqsUpTo({"1", ")", ","}, 2),
+          ps \in {<<"a">>, <<"a", "b">>},
+          s \in SeqsUpTo({"B", "2", ")", ","}, 3)}
     [] Space = "sec8" ->  \* the failing inputs of DESIGN.md section 8 and of the defects found by this check, verbatim
        { <<Def("C", TRUE, <<"a">>, <<"a">>)>> \o Text(<<"C", "C", "1">>),
          <<Def("H", FALSE, <<>>, <<"A", "B">>), Def("B", FALSE, <<>>, <<"Z", "H">>)>> \o Text(<<"B", "NL", "H">>),
